@@ -25,6 +25,9 @@ RULE = (
     "non-trivial = document with a repeated formatted title on distinct schemas or >=3 classes; "
     "distinct = canon(files)"
 )
+RULE += (
+    ' The last driver process of every batch generates the documents in reverse order (same hash seed as the first): the output for a document must not depend on what the process generated before it.'
+)
 ASSUMPTIONS = [
     "a finite set of hash seeds: covering set for the iteration orders of 3- and 4-element string sets among seeds 0..63, plus derived seeds",
     "subprocesses import statham from the working tree under test (VERIF_REPO_DIR)",
@@ -96,10 +99,10 @@ def batches(draw):
     return {"docs": out}
 
 
-def run_driver(scratch, seed):
+def run_driver(scratch, seed, order="forward"):
     env = dict(os.environ, PYTHONHASHSEED=str(seed))
     env.pop("PYTHONPATH", None)
-    p = subprocess.run([PY, "-W", "ignore", DRIVER, repo.REPO_DIR, scratch], stdout=subprocess.PIPE,
+    p = subprocess.run([PY, "-W", "ignore", DRIVER, repo.REPO_DIR, scratch, order], stdout=subprocess.PIPE,
                        stderr=subprocess.PIPE, env=env, timeout=600)
     if p.returncode != 0:
         raise runner.HarnessError(f"driver failed under seed {seed}: {p.stderr.decode()[-800:]}")
@@ -143,7 +146,10 @@ def predicate(case, stats, seed_salt=1):
         for i, doc in enumerate(case["docs"]):
             docs.write_files(doc["files"], os.path.join(scratch, "doc%02d" % i))
         seeds = seeds_for(int(os.environ.get("VERIF_SEED", "1") or 1) + seed_salt)
-        outputs = [(s, run_driver(scratch, s)) for s in seeds]
+        # the last process (a repeated hash seed) generates the documents in the OPPOSITE order: what a process
+        # did earlier is not part of "the input document"
+        outputs = [(s, run_driver(scratch, s, "reverse" if k == len(seeds) - 1 else "forward"))
+                   for k, s in enumerate(seeds)]
         base_seed, base = outputs[0]
         for i, doc in enumerate(case["docs"]):
             name = "doc%02d" % i
@@ -153,12 +159,15 @@ def predicate(case, stats, seed_salt=1):
             stats.case(canon(doc["files"]), repeated or n_classes >= 3,
                        (["repeated-title"] if repeated else []) + (["collision-doc"] if doc.get("collision") else []),
                        n=len(seeds), sample={"files": doc["files"], "classes": base[name].get("classes")})
-            for s, out in outputs[1:]:
+            for k, (s, out) in enumerate(outputs[1:], 1):
                 if out[name] != base[name]:
-                    diff = [k for k in base[name] if base[name][k] != out[name].get(k)]
-                    fails.append({"sub": "driver", "kind": "output-depends-on-hash-seed:" + "+".join(diff),
-                                  "doc": i, "replay_case": {"docs": [doc]}, "hash_seeds": [base_seed, s],
-                                  "detail": [base[name], out[name]]})
+                    diff = [kk for kk in base[name] if base[name][kk] != out[name].get(kk)]
+                    history = k == len(outputs) - 1 and all(o[name] == base[name] for _, o in outputs[1:-1])
+                    fails.append({"sub": "driver",
+                                  "kind": ("output-depends-on-process-history:" if history else
+                                           "output-depends-on-hash-seed:") + "+".join(diff),
+                                  "doc": i, "replay_case": {"docs": case["docs"] if history else [doc]},
+                                  "hash_seeds": [base_seed, s], "detail": [base[name], out[name]]})
                     break
         # the literal CLI on the first document
         cli = [run_cli(os.path.join(scratch, "doc00", "a.json"), s) for s in (seeds[0], seeds[1], seeds[-2])]
